@@ -1016,6 +1016,11 @@ class Interp:
                 return base[kk]
             except IndexError:
                 raise Raised("IndexError", e)
+        if isinstance(base, (list, tuple)) and isinstance(kk, Bits):
+            kk2 = kk.subst(self.asg)
+            srcs = kk2.sources()
+            if not kk2.has_top() and 0 < len(srcs) <= self.max_split:
+                raise Split(srcs)
         if isinstance(base, dict):
             if _hashable_const(kk):
                 if kk in base:
@@ -1133,6 +1138,13 @@ class Interp:
             if cls.is_subclass_of("Exception") or cls.name.endswith("Error") or cls.name.startswith("Invalid"):
                 return Sym("exc", cls.name)
             return Sym("new", cls.name, *args)
+        if name in ("pack", "unpack", "calcsize") and func is not None and func.module.imports.get(name) == ("struct", name) and args and isinstance(args[0], str):
+            if name == "unpack" and len(args) == 2:
+                return self.struct_unpack(args[0], args[1], e, func)
+            if name == "pack":
+                return self.struct_pack(args[0], args[1:], e, func)
+            if name == "calcsize":
+                return _struct.calcsize(args[0])
         if name in _BUILTINS:
             return _BUILTINS[name](self, args, kwargs, e, func)
         return Sym("call", name or ast.unparse(e.func)[:40], *args)
@@ -1228,6 +1240,8 @@ class Interp:
                     continue
                 if code in ("s", "c"):
                     out.append(BytesV(chunk))
+                elif signed == "float":
+                    out.append(Sym("ieee%d" % (8 * size), field_bits(chunk, False)))
                 else:
                     out.append(field_bits(chunk, signed))
             return tuple(out)
@@ -1250,7 +1264,10 @@ class Interp:
                 off += size
                 continue
             by = [[self._src(off + k, i) for i in range(8)] for k in range(size)]
-            out.append(field_bits(by, signed))
+            if signed == "float":
+                out.append(Sym("ieee%d" % (8 * size), field_bits(by, False)))
+            else:
+                out.append(field_bits(by, signed))
             off += size
         return tuple(out)
 
@@ -1275,6 +1292,14 @@ class Interp:
             if code in ("s", "c"):
                 if isinstance(v, BytesV) and len(v.bytes) == size:
                     out.extend(v.bytes)
+                else:
+                    out.extend([[TOP] * 8] * size)
+                continue
+            if signed == "float":
+                if isinstance(v, Sym) and v.op == "ieee%d" % (8 * size) and isinstance(v.args[0], Bits):
+                    low = v.args[0].low(8 * size)
+                    for k in range(size):
+                        out.append(list(low[8 * k: 8 * k + 8]))
                 else:
                     out.extend([[TOP] * 8] * size)
                 continue
